@@ -17,8 +17,12 @@
   The homogenisation is restated densely: the block is expanded to the dense symmetric matrix
   (zeros outside the band) and factored / substituted over all indices.  On a band matrix the
   arithmetic on the entries inside the band is the C++ one, the entries outside stay exactly 0
-  (`0 - (0/pivot)·x`), so the two agree; the band-limited pointer walk itself is the subject of
-  C10 (`Model/BandChol.lean`).  The elimination step is `Chol.elim` with the identity ordering
+  (`0 - (0/pivot)·x`).  NO THEOREM relates this dense restatement (`AdjM.ldl/choldec/forwardSubst`)
+  to the band-limited pointer walk (`Cov.cholDec/adjCholdec/forwardSubst`, `Model/BandChol.lean`,
+  the subject of C10 and what `Net.prepare` uses): that the two compute the same numbers is
+  checked by the correspondence of `drv_ls` with the C++ class `Adj` only.  What is proved about
+  this model is `L̃ L̃ᵀ = C`, `L̃·A_dot = A` (Lemmas/Ls/AdjChol.lean), which is all the C01/C03
+  theorems about `adjSolve` use.  The elimination step is `Chol.elim` with the identity ordering
   (the same `S -= v vᵀ/pivot`, column `/= pivot`).
 -/
 import Gama.Model.Ls.Common
